@@ -611,7 +611,7 @@ func ruleExpiryPaths(w *core.World, r *core.Report) {
 		if cmd, ok := core.CmdName(s); ok && cmd == "restore" {
 			// params slice: [key, ttlms, dump]
 			core.Walk(s.Args()[1], func(v ssa.Value) bool {
-				if ph, ok := v.(*ssa.Phi); ok && ph.Comment == "ttlms" {
+				if ph, ok := v.(*ssa.Phi); ok && isTTLValue(ph) {
 					okTTL = true
 				}
 				return true
@@ -1018,4 +1018,35 @@ func ruleStreamMasterFields(w *core.World, r *core.Report) {
 	if n == 0 {
 		r.Fail("StreamParser.ExecCmd/master-field-count", f.Pos(), "no loop over the master entry's fields found")
 	}
+}
+
+
+// isTTLValue recognises the computed time-to-live by what it is made of: a
+// merge of the constant 1 (expiry already past) and "expiry - now".
+func isTTLValue(ph *ssa.Phi) bool {
+	one, diff := false, false
+	seen := map[*ssa.Phi]bool{}
+	var walk func(p *ssa.Phi)
+	walk = func(p *ssa.Phi) {
+		if seen[p] {
+			return
+		}
+		seen[p] = true
+		for _, e := range p.Edges {
+			switch x := e.(type) {
+			case *ssa.Phi:
+				walk(x)
+			case *ssa.BinOp:
+				if x.Op == token.SUB && fieldNameOfLoad(x.X) == "ExpireAt" {
+					diff = true
+				}
+			default:
+				if isConstInt(1)(e) {
+					one = true
+				}
+			}
+		}
+	}
+	walk(ph)
+	return one && diff
 }
